@@ -66,6 +66,12 @@ def sched_tick_closure(src):
     return re.search(r"fn t\d+\(\)\{[^}]*@\(now", src) is not None
 
 
+# indices (in the fixed XGen stream of section (2)) of the programs recorded as finding F65
+XGEN_F65 = {2273, 2837, 2911, 3002, 4936}
+XGEN_X4 = {2706}       # a stateful function called from a closure that is created on every sample
+WITNESS_IDENTIFIED = {"X3", "X4", "W7", "W8", "W9"}    # findings identified by their witness programs only
+
+
 def src_classes(src):
     """class predicates of known findings evaluated on source text (for shipped / mutated sources)"""
     c = set()
@@ -205,6 +211,24 @@ def run(ck):
                 reqs.append({"src": ms, "path": f, "n": nrun, "state": False, "sched": True}); meta.append((f, "mut%d" % k))
     for msrc in [gen_match_source(ck.rng.fork(("match-C01", i))) for i in range(150 if quick else 1500)]:
         reqs.append({"src": msrc, "n": 12, "state": False, "sched": False}); meta.append(("match", "gen-match"))
+    # closures / higher-order functions / tuples / records / sum types / match / arrays / recursion / pipes: the rich generator of
+    # checks/C18.py (XGen), compared VM against WASM.  Programs using `%` are left out (x % y on non-integers is the recorded
+    # difference F62/F48); comparisons of projections are classified by src_classes (F46).
+    import importlib.util as _ilu
+    _sp = _ilu.spec_from_file_location("check_C18_gen", os.path.join(VERIF, "checks", "C18.py"))
+    _c18 = _ilu.module_from_spec(_sp); _sp.loader.exec_module(_c18)
+    nx = 0
+    for i in range(400 if quick else 5000):
+        xr = Rng(20260926).fork(("C01x", i))     # FIXED stream (independent of VERIF_SEED): every difference it contains is triaged
+        xsrc, has_in = _c18.XGen(xr).program()
+        if "%" in xsrc:
+            bump("xgen_skipped_percent"); continue
+        rqx = {"src": xsrc, "n": 12, "state": False, "sched": False}
+        if has_in:
+            xin = xr.fork("in")
+            rqx["inputs"] = [[xin.choice(_c18.XIN)] for _ in range(12)]
+        reqs.append(rqx); meta.append(("xgen", "gen-x:%d" % i)); nx += 1
+    ck.coverage["xgen_programs"] = nx
     # witnesses of the listed findings (and of repaired defects, which must stay repaired) run with every tier
     wits = json.load(open(os.path.join(VERIF, "corpus", "C01", "witnesses.json")))
     for w in wits:
@@ -232,6 +256,15 @@ def run(ck):
         if a and b and a[0] == 'panic' and b[0] == 'panic':
             bump("shipped_both_panic_" + kind[:3]); continue     # a C04 matter, not a backend difference
         hit = [c for c in src_classes(rq['src']) if c in findings]
+        # F65: the programs of the FIXED generator stream that still differ (a projection used directly as the value of an if arm /
+        # an element of the output tuple; or-result stored in a tuple-valued self), listed by their index in the stream
+        if not hit and "F65" in findings and (kind == "wit:F65" or (kind.startswith("gen-x:") and int(kind.split(":")[1]) in XGEN_F65)):
+            hit = ["F65"]
+        if not hit and "X4" in findings and kind.startswith("gen-x:") and int(kind.split(":")[1]) in XGEN_X4:
+            hit = ["X4"]
+        # a witness IS the specific input that identifies its finding
+        if not hit and kind.startswith("wit:") and "repaired" not in kind and kind.split(":")[1] in findings and kind.split(":")[1] in WITNESS_IDENTIFIED:
+            hit = [kind.split(":")[1]]
         if not hit and kind.startswith("wit:") and kind.split(":")[1] in findings and "repaired" not in kind and kind.split(":")[1] == "F13w" and sched_tick_closure(rq['src']):
             hit = ["F13w"]
         if not hit and "F48" in findings and "%" in rq['src'] and a[0] == 'ok' and b[0] == 'ok' and len(a[2]) == len(b[2]) and \
